@@ -14,7 +14,7 @@ RULE = ("alphabet: makeRequest (reply / no-reply, fresh ids), re-use of an in-fl
         "request, broker frames for any id it has seen (in any order, duplicates) and for an unknown id (99), a frame "
         "announcing 2^31 bytes, delivery of the whole buffer or of 1/3/4/6/len-1 bytes (inside the prefix, at its "
         "boundary, inside the body, across frames), accept/refuse of connection attempts, drop, clean close, timers, "
-        "disconnect(), close().  Every event enabled in a state is explored; states = distinct fingerprints; a "
+        "disconnect(), close(), and a request whose completion callback calls close() re-entrantly.  Every event enabled in a state is explored; states = distinct fingerprints; a "
         "trace is non-trivial when it reconnects, cancels, closes or sees an impossible length.  Oracle: reference "
         "model of request instances (exactly once; success = exact bytes of an unconsumed frame carrying the id, sent "
         "after the request was written on that connection; failure only by cancel or close; impossible length closes "
@@ -29,11 +29,15 @@ ASSUME = ["<= 3 requests, <= 3 broker frames per connection, depth-bounded histo
 def run(tier, seed, only=None):
     if tier == "quick":
         plans = [("chunked-2req", {"chunks": True, "max_reqs": 2, "max_frames": 3}, 8),
-                 ("whole-3req", {"chunks": False, "max_reqs": 3, "max_frames": 3}, 8)]
+                 ("whole-3req", {"chunks": False, "max_reqs": 3, "max_frames": 3}, 8),
+                 ("reentrant-close", {"chunks": False, "max_reqs": 3, "max_frames": 3, "reentrant": True,
+                                      "big": False, "noreply": False}, 7)]
     else:
         plans = [("chunked-2req", {"chunks": True, "max_reqs": 2, "max_frames": 3}, 10),
                  ("chunked-3req", {"chunks": True, "max_reqs": 3, "max_frames": 3}, 9),
-                 ("whole-3req", {"chunks": False, "max_reqs": 3, "max_frames": 3}, 10)]
+                 ("whole-3req", {"chunks": False, "max_reqs": 3, "max_frames": 3}, 10),
+                 ("reentrant-close", {"chunks": False, "max_reqs": 3, "max_frames": 3, "reentrant": True,
+                                      "big": False, "noreply": False}, 9)]
     rep = _bc.run_bfs(PROPERTY, plans, seed, RULE, ASSUME)
     # the ephemeral bootstrap connection's own protocol class
     from mc import explore
